@@ -56,6 +56,7 @@ URIS = ["PYRO:obj@localhost:4444", "PYRO:o2@127.0.0.1:9", "PYRO:x_%@[::1]:55", "
         "PYRO:\u00e9@./u:/var/tmp/s.sock"]
 SPECIAL_NAMES = [NS_NAME, NS_NAME, "pyro.nameserver", "Pyro_NameServer", "Pyro.NameServer2", "Pyro.", "Pyro%", "PYRO.NAMESERVER"]
 MUTATING = ("register", "remove", "set_metadata")
+BUDGET_S = {"quick": 40, "thorough": 380}      # per search shard; running out ends the search early (reported, never a verdict)
 INJECT_LIMIT = 400
 
 
@@ -382,9 +383,11 @@ def _eq(e, g):
     raise HarnessError("unexpected model value %r" % (e,))
 
 
-def _qual(op):
-    if op["op"] == "yplookup" and len(set(op["tags"])) != len(op["tags"]) and not op.get("as_set"):
-        return ":dup-arg"
+def _qual(op, ns=None, exp=None):
+    if op["op"] == "yplookup" and len(set(op["tags"])) != len(op["tags"]) and not op.get("as_set") and ns is not None:
+        # root cause probe (read-only): is the answer right once the duplicates are taken out of the argument?
+        if _same(exp, call(ns, dict(op, tags=list(dict.fromkeys(op["tags"]))))):
+            return ":dup-arg"
     if op["op"] in ("list", "remove") and op.get("by") == "regex" and op.get("arg"):
         try:
             with warnings.catch_warnings():
@@ -459,7 +462,7 @@ def run_case(case):
                 if len(bad) == 2 and bad[0][1][:2] == bad[1][1][:2]:
                     bad = [("both", mem_out)]
                 for backend, out in bad:
-                    viol("%s:%s%s:%s" % (backend, kind, _qual(op), _diff_kind(exp, out)), step, op,
+                    viol("%s:%s%s:%s" % (backend, kind, _qual(op, mem if backend == "mem" else sql, exp), _diff_kind(exp, out)), step, op,
                          "%s back-end answered %s, the map says %s" % (backend, _short(out[1:], 220), _short(exp[1:], 220)))
                 if V:
                     return V
@@ -719,11 +722,13 @@ def run(ctx):
     part = ctx.shard.get("part", "search")
     if part == "enum":
         sl, of = ctx.shard.get("slice", 0), ctx.shard.get("of", 1)
+        n = 0
         for i, case in enumerate(enum_cases()):
             if i % of != sl:
                 continue
             ctx.observe(case, run_case(case), _nontrivial(case), _labels(case) + ["part:enum"])
-        ctx.exhaustive = True
+            n += 1
+        ctx.notes["enumerated_cases"] = n
     else:
         steps = ctx.shard.get("steps", 24)
-        ctx.search(histories(steps), run_case, ctx.n(7000, 110000) // steps, nontrivial=_nontrivial, labels=_labels, name="nsmap", max_rounds=8)
+        ctx.search(histories(steps), run_case, ctx.n(5600, 60000) // steps, nontrivial=_nontrivial, labels=_labels, name="nsmap", max_rounds=8)
